@@ -146,3 +146,108 @@ def unroll_constant_loops(tree, fi):
         else:
             _CACHE[key] = fi.node
     return _CACHE[key]
+
+
+# =============================================================================== match statements -> if chains
+class _MatchDesugar(ast.NodeTransformer):
+    """`match` statements rewritten into the if-chains they abbreviate, so that every analysis sees constructs it knows.  Supported
+    patterns: literals and dotted names (==), None/True/False (is), class patterns without sub-patterns or with keyword/positional
+    captures of attributes declared by __match_args__ are NOT supported (isinstance only), sequences of simple patterns, `|`, captures,
+    `_`, `as`, guards.  Anything else is left as it is (the analyses then report the statement as unsupported: fail closed)."""
+
+    def __init__(self):
+        self.n = 0
+
+    def _test(self, pat, subj):
+        """(test expression or None for irrefutable, [assignments]) or raise NotImplementedError"""
+        L = lambda: copy.deepcopy(subj)
+        if isinstance(pat, ast.MatchValue):
+            return ast.Compare(left=L(), ops=[ast.Eq()], comparators=[pat.value]), []
+        if isinstance(pat, ast.MatchSingleton):
+            return ast.Compare(left=L(), ops=[ast.Is()], comparators=[ast.Constant(value=pat.value)]), []
+        if isinstance(pat, ast.MatchAs):
+            if pat.pattern is None:
+                binds = [] if pat.name is None else [ast.Assign(targets=[ast.Name(id=pat.name, ctx=ast.Store())], value=L(), lineno=0)]
+                return None, binds
+            t, b = self._test(pat.pattern, subj)
+            return t, b + [ast.Assign(targets=[ast.Name(id=pat.name, ctx=ast.Store())], value=L(), lineno=0)]
+        if isinstance(pat, ast.MatchClass):
+            if pat.patterns or pat.kwd_patterns:
+                raise NotImplementedError
+            return ast.Call(func=ast.Name(id="isinstance", ctx=ast.Load()), args=[L(), pat.cls], keywords=[]), []
+        if isinstance(pat, ast.MatchOr):
+            tests = []
+            for p in pat.patterns:
+                t, b = self._test(p, subj)
+                if b:
+                    raise NotImplementedError
+                if t is None:
+                    return None, []
+                tests.append(t)
+            return ast.BoolOp(op=ast.Or(), values=tests), []
+        if isinstance(pat, ast.MatchSequence):
+            if any(isinstance(p, ast.MatchStar) for p in pat.patterns):
+                raise NotImplementedError
+            tests = [ast.Call(func=ast.Name(id="isinstance", ctx=ast.Load()), args=[L(), ast.Tuple(elts=[ast.Name(id="list", ctx=ast.Load()), ast.Name(id="tuple", ctx=ast.Load())], ctx=ast.Load())], keywords=[]),
+                     ast.Compare(left=ast.Call(func=ast.Name(id="len", ctx=ast.Load()), args=[L()], keywords=[]), ops=[ast.Eq()], comparators=[ast.Constant(value=len(pat.patterns))])]
+            binds = []
+            for i, p in enumerate(pat.patterns):
+                t, b = self._test(p, ast.Subscript(value=L(), slice=ast.Constant(value=i), ctx=ast.Load()))
+                if t is not None:
+                    tests.append(t)
+                binds += b
+            return ast.BoolOp(op=ast.And(), values=tests), binds
+        raise NotImplementedError
+
+    def visit_Match(self, node):
+        self.generic_visit(node)
+        self.n += 1
+        pre = []
+        if isinstance(node.subject, ast.Name):
+            subj = ast.Name(id=node.subject.id, ctx=ast.Load())
+        else:
+            tmp = "__match_subject_%d" % self.n
+            pre.append(ast.Assign(targets=[ast.Name(id=tmp, ctx=ast.Store())], value=node.subject, lineno=node.lineno))
+            subj = ast.Name(id=tmp, ctx=ast.Load())
+        try:
+            cases = [(c,) + self._test(c.pattern, subj) for c in node.cases]
+        except NotImplementedError:
+            return node
+        TRUE = lambda: ast.Constant(value=True)
+        if not any(c.guard is not None for c, _, _ in cases):
+            chain = None
+            for c, t, binds in reversed(cases):
+                body = binds + c.body
+                if t is None:
+                    chain = body
+                else:
+                    chain = [ast.If(test=t, body=body, orelse=chain or [])]
+            out = pre + (chain or [])
+        else:
+            flag = "__match_done_%d" % self.n
+            out = pre + [ast.Assign(targets=[ast.Name(id=flag, ctx=ast.Store())], value=ast.Constant(value=False), lineno=node.lineno)]
+            for c, t, binds in cases:
+                notdone = ast.UnaryOp(op=ast.Not(), operand=ast.Name(id=flag, ctx=ast.Load()))
+                cond = notdone if t is None else ast.BoolOp(op=ast.And(), values=[notdone, t])
+                setdone = ast.Assign(targets=[ast.Name(id=flag, ctx=ast.Store())], value=TRUE(), lineno=node.lineno)
+                inner = [setdone] + c.body
+                if c.guard is not None:
+                    inner = [ast.If(test=c.guard, body=inner, orelse=[])]
+                out.append(ast.If(test=cond, body=binds + inner, orelse=[]))
+        for st in out:
+            for x in ast.walk(st):
+                if not getattr(x, "lineno", None):
+                    x.lineno = node.lineno
+                    x.col_offset = node.col_offset
+                if not getattr(x, "end_lineno", None):
+                    x.end_lineno = getattr(node, "end_lineno", node.lineno)
+                    x.end_col_offset = 0
+        return out
+
+
+def desugar_match(module_tree):
+    """in place: every supported `match` statement of the module becomes an if-chain"""
+    if any(isinstance(n, ast.Match) for n in ast.walk(module_tree)):
+        _MatchDesugar().visit(module_tree)
+        ast.fix_missing_locations(module_tree)
+    return module_tree
